@@ -265,6 +265,27 @@ package tree
 //@   loop 2
 //@     assigns elems(n.br)
 
+// ParentEdge: the unique branch of n that points into n
+//@ func (*tree.Node).ParentEdge
+//@   requires n != nil && (forall k int :: {n.br[k]} 0 <= k && k < len(n.br) ==> n.br[k] != nil)
+//@   allocates iface
+//@   assigns nothing
+//@   ensures [the_incoming_branch] result1 == nil ==> result0 != nil && result0.right == n && (exists k int :: 0 <= k && k < len(n.br) && n.br[k] == result0)
+//@   ensures [unique] result1 == nil ==> (forall k int :: {n.br[k]} 0 <= k && k < len(n.br) && n.br[k].right == n ==> n.br[k] == result0)
+//@   ensures [error_without_a_value] result1 != nil ==> result0 == nil
+//@   loop 1
+//@     invariant [found_so_far] (e2 == nil && (forall k int :: {n.br[k]} 0 <= k && k <= rangeindex ==> n.br[k].right != n)) || (e2 != nil && e2.right == n && (exists k int :: 0 <= k && k <= rangeindex && n.br[k] == e2) && (forall k int :: {n.br[k]} 0 <= k && k <= rangeindex && n.br[k].right == n ==> n.br[k] == e2))
+
+// GraftTreeOnTip (properties C03, C15): the root of the grafted tree takes exactly the slot the tip occupied in its
+// parent's neighbour list, the tip's branch now leads to it, and it records the parent and that branch last
+//@ func (*tree.Tree).GraftTreeOnTip
+//@   flag noframe
+//@   requires t != nil && graft != nil && graft.root != nil && allocated(graft.root) && LIVEBR() && INV1() && OWN()
+//@   requires forall s string :: {t.tipIndex[s]} has(t.tipIndex, s) ==> t.tipIndex[s] != nil && allocated(t.tipIndex[s])
+//@   return [graft_root_takes_the_slot_of_the_tip] err == nil ==> 0 <= idx && idx < len(parN.neigh) && parN.neigh[idx] == tr && old(parN.neigh[idx]) == tn && tr == old(graft.root)
+//@   return [the_tip_branch_now_leads_to_the_graft_root] err == nil ==> parE.right == tr && parE.left == parN && old(parE.right) == tn
+//@   return [graft_root_records_parent_and_branch_last] err == nil ==> len(tr.neigh) == old(len(tr.neigh)) + 1 && tr.neigh[len(tr.neigh) - 1] == parN && tr.br[len(tr.br) - 1] == parE
+
 // removeSingleNodesRecur (properties C03, C15): the recursion descends into each neighbour recorded at entry with
 // the branch that was recorded next to it (the live lists shift while single nodes are spliced out); the
 // merged branch takes the larger support and, when both lengths are present, their sum
@@ -416,11 +437,26 @@ package tree
 //@   assigns nothing
 //@   ensures [index_maps_each_name_to_the_node_carrying_it] result1 == nil ==> result0 != nil && result0.index != nil && (forall s string :: {has(result0.index, s)} has(result0.index, s) ==> result0.index[s] != nil && result0.index[s].name == s)
 
-//@ func (*tree.Tree).UpdateTipIndex
-//@   flag treeop
+// SortedTips: the tips (Tips) sorted by name in fresh storage (sort.Slice: trusted permutation)
+//@ func (*tree.Tree).SortedTips
 //@   requires t != nil
-//@   assigns ghost(tipindex_stale)
+//@   allocates []*Node, iface
+//@   assigns nothing
+//@   ensures [elements_non_nil] forall k int :: {result[k]} 0 <= k && k < len(result) ==> result[k] != nil && allocated(result[k])
+//@   ensures [fresh_storage] fresh_arr(result)
+
+// UpdateTipIndex (properties C04, C06): writes the name index and the tips' bit positions only; on success every
+// tip of the sorted list is registered under its name with its rank as bit position
+//@ func (*tree.Tree).UpdateTipIndex
+//@   requires t != nil && t.tipIndex != nil
+//@   allocates []*Node, iface
+//@   assigns mapof("map[string]*Node"), Node.tipid, ghost(tipindex_stale)
+//@   ghostset tipindex_stale := 0
 //@   ensures [name_index_rebuilt_from_the_current_tips] result == nil ==> ghost(tipindex_stale) == 0
+//@   return [every_sorted_tip_is_registered_under_its_name_with_its_rank] result0 == nil ==> (forall k int :: {tips[k]} 0 <= k && k < len(tips) ==> has(t.tipIndex, tips[k].name) && t.tipIndex[tips[k].name] == tips[k] && tips[k].tipid == k)
+//@   loop 2
+//@     invariant [registered_so_far] t.tipIndex != nil && (forall k int :: {tips[k]} 0 <= k && k <= rangeindex ==> has(t.tipIndex, tips[k].name) && t.tipIndex[tips[k].name] == tips[k] && tips[k].tipid == k)
+//@     invariant [tips_live] forall k int :: {tips[k]} 0 <= k && k < len(tips) ==> tips[k] != nil && allocated(tips[k])
 
 //@ func (*tree.Tree).Rename
 //@   flag noframe
